@@ -460,6 +460,9 @@ def run(ck: Check, repo: Repo) -> None:
     rule_file_sets(ck, repo, "ProjectReport", "R4")
     rule_file_fields(ck, repo)
     rule_data_key(ck, repo)
+    # 'every covered file': which files are covered is decided by is_path_ignored (table shared with C03-R2)
+    from . import c03
+    c03.shared_decision(ck, repo, "R7")
     ck.exhaustive = True
 
 
